@@ -1564,6 +1564,7 @@ class RTCSctpTransport(AsyncIOEventEmitter):
                     return
                 self._flight_size_increase(chunk)
 
+                chunk._acked = False
                 chunk._misses = 0
                 chunk._retransmit = False
                 chunk._sent_count += 1
